@@ -116,9 +116,50 @@ def string_octets(kind, v):
     return v.encode("latin-1")
 
 
+def time_variant(kind, v, rng):
+    """another BER-legal way of writing the same instant as the DER form v ('...Z'): trailing zeros in the fraction, a comma
+    as decimal sign, a local time with an offset (X.680 46, 47; excluded by X.690 11.7 / 11.8 for DER only)"""
+    import datetime
+    if not v.endswith("Z"):
+        return v
+    body = v[:-1]
+    frac = ""
+    for sep in (".", ","):
+        if sep in body:
+            body, frac = body.split(sep, 1)
+    form = rng.choice(["zeros", "comma", "offset", "offset", "no-seconds"])
+    gen = kind == "GeneralizedTime"
+    if form == "zeros" and gen:
+        return body + "." + (frac or "0") + "0" * rng.choice([0, 1, 3]) + "Z" if (frac or rng.random() < 0.5) else v
+    if form == "comma" and gen and frac:
+        return body + "," + frac + "Z"
+    if form == "no-seconds" and not frac and body.endswith("00") and len(body) == (14 if gen else 12):
+        return body[:-2] + "Z"
+    if form == "offset" and len(body) == (14 if gen else 12):
+        try:
+            if gen:
+                dt = datetime.datetime.strptime(body, "%Y%m%d%H%M%S")
+            else:
+                yy = int(body[:2])
+                dt = datetime.datetime.strptime(("19" if yy >= 50 else "20") + body, "%Y%m%d%H%M%S")
+            off = rng.choice([60, -60, 330, -480, 754, 1, -1])
+            lt = dt + datetime.timedelta(minutes=off)
+            if lt.year != dt.year or not (1 <= lt.year <= 9999):
+                return v
+            txt = lt.strftime("%Y%m%d%H%M%S") if gen else lt.strftime("%y%m%d%H%M%S")
+            if gen and frac:
+                txt += "." + frac
+            return txt + ("+" if off >= 0 else "-") + "%02d%02d" % (abs(off) // 60, abs(off) % 60)
+        except ValueError:
+            return v
+    return v
+
+
 class Encoder:
-    def __init__(self, mod, emit_defaults=False, shuffle=None, true_octet=0xff, unknown_ext=None):
+    def __init__(self, mod, emit_defaults=False, shuffle=None, true_octet=0xff, unknown_ext=None, time_forms=None):
         self.mod = mod
+        self.time_forms = time_forms            # rng: GeneralizedTime / UTCTime in a non-DER notation of the same instant
+        self.time_kinds = ("UTCTime", "GeneralizedTime")
         self.emit_defaults = emit_defaults      # BER: DEFAULT-equal components may be present
         self.shuffle = shuffle                  # rng: SET components / SET OF elements in any order
         self.true_octet = true_octet            # BER: any non-zero octet means TRUE
@@ -178,6 +219,11 @@ class Encoder:
             n.bits_unused = unused
             return n
         if k in STRING_KINDS:
+            if self.time_forms is not None and k in self.time_kinds:
+                v2 = time_variant(k, v, self.time_forms)
+                if v2 != v:
+                    self.used.add("time-form")
+                    v = v2
             return Node(cls, num, False, string_octets(k, v), is_string=True)
         if k in ("SEQUENCE", "SET"):
             children = []
